@@ -298,6 +298,32 @@ fn snippet(rng: &mut Rng, focus: &str, m: &Mix, out: &mut Vec<Op>) {
             out.push(Op::Gc { force: true, exhaustive: false });
             out.push(Op::Load { src: holder, field: rng.below(8) as u16, dst: l(1) });
         }
+        // log-bit neighbours: small old objects allocated back to back (their unlog bits share a
+        // byte); each mutator stores fresh young objects into every other one of them, exactly
+        // once per nursery cycle, so a barrier that fails to log its object loses the young one
+        "C18" if rng.chance(1, 2) => {
+            if rng.chance(1, 3) {
+                for i in 0..12u16 {
+                    // (40 bytes each: two neighbours share a byte of the 1-bit-per-word log table)
+                    out.push(Op::Alloc { size: 40, align: 8, offset: 0, sem: SEM_DEFAULT, nrefs: 1, kind: 0, root: gl(16 + i) });
+                }
+                out.push(Op::Gc { force: true, exhaustive: false });
+            }
+            let c = rng.below(2) as u16;
+            for _ in 0..rng.range(1, 4) {
+                for i in 0..6u16 {
+                    let g = gl(16 + 2 * i + c);
+                    out.push(Op::Alloc { size: 40, align: 8, offset: 0, sem: SEM_DEFAULT, nrefs: 1, kind: 0, root: l(15) });
+                    // (fields are partitioned between mutators by object id parity: the objects
+                    // of one parity class are all ours or all someone else's; each is written --
+                    // and has to be logged -- at most once per cycle)
+                    out.push(Op::Write { src: g, field: 0, val: Some(l(15)), mode: rng.below(2) as u8 });
+                    out.push(Op::Drop { root: l(15) });
+                }
+                out.push(Op::Gc { force: true, exhaustive: false });
+                out.push(Op::Load { src: gl(16 + c), field: rng.below(4) as u16, dst: l(14) });
+            }
+        }
         // heavy fan-in: many slots refer to one object
         "C18" => {
             let t = gl(rng.below(NG) as u16);
@@ -833,7 +859,7 @@ pub fn gen_spec(seed: u64, focus: &str, tier: &str) -> RunSpec {
         count_live_bytes: rng.chance(1, 5),
         disable_concurrent_marking: plan == "ConcurrentImmix" && focus != "C12" && rng.chance(1, 8),
         root_batch: if focus == "C17" { 1 } else { *rng.pick(&[1usize, 2, 8, 64]) },
-        write_mode: if focus == "C18" || focus == "C05" { 0 } else { rng.below(2) as u8 },
+        write_mode: if focus == "C18" { 0 } else { rng.below(2) as u8 },
         pinning_roots_pct: if rng.chance(1, 4) { 10 } else { 0 },
         tpinning_roots_pct: if rng.chance(1, 6) { 5 } else { 0 },
         final_gcs: if focus == "C06" { 2 } else { 1 },
